@@ -164,6 +164,10 @@ def worker(job):
         stats.slack += res.stats.get("slack", 0)
         stats.extra["quiescent_points"] = stats.extra.get("quiescent_points", 0) + res.nq
         stats.extra["delivery_commands"] = stats.extra.get("delivery_commands", 0) + res.stats.get("ncmds", 0)
+        for t, sig, m in res.known:
+            if t in tags:
+                stats.known_hits[sig] = stats.known_hits.get(sig, 0) + 1
+                stats.extra.setdefault("known_examples", {}).setdefault(sig, {"msg": m, "scenario": sc})
         bad = [(t, m) for t, m in res.viol if t in tags]
         other = [(t, m) for t, m in res.viol if t not in tags]
         for t, m in other:
@@ -226,6 +230,10 @@ def sweep_modes(r, sc, sweep, record):
     if sweep.get("crash_kept"):
         plans = [p for p in plans if p["image"] == "kept" and p["key"] != "send.qmail-queue"]
         sweep = dict(sweep, crash=sweep["crash_kept"])
+    if sweep.get("faults_only"):
+        plans = []
+    if sweep.get("kept_only"):
+        plans = [p for p in plans if p["image"] == "kept"]
     if sweep.get("all"):
         sel = plans + sites
     else:
@@ -260,7 +268,12 @@ def search(ctx, profile, tags, n_quick, n_thorough, sweep=None, fixed=()):
                     fixed.append(j.get("scenario", j))
     jobs = [(tree, i, vlib.subseed(ctx.seed, profile, i), per, profile, tags, sweep, fixed[i::nw]) for i in range(nw)]
     st = vlib.run_workers(worker, jobs)
+    ex = st.extra.pop("known_examples", {})
     ctx.stats.merge(st)
+    # a recognised defect is suppressed only if known-findings.txt lists its signature; otherwise it is a violation like any other
+    for sig, e in ex.items():
+        if not ctx.known_finding(sig):
+            ctx.stats.violations.append(("%s: %s [signature %s]" % (ctx.id, e["msg"], sig), e["scenario"]))
     return tree
 
 
